@@ -33,6 +33,37 @@ func (fv *FuncVer) call(st *State, ins ssa.Instruction, cc *ssa.CallCommon, res 
 	return fv.callValue(st, ins, callee, args, res, cc)
 }
 
+// afterCall applies the `aftercall <callee> : ghost = expr` clauses of the function under
+// verification once a call made directly by it has returned.
+func (fv *FuncVer) afterCall(st *State, calleeName string) {
+	if fv.block == nil || len(st.frames) != 1 {
+		return
+	}
+	var env *SpecEnv
+	type upd struct {
+		name string
+		v    *Term
+	}
+	var ups []upd
+	for _, cl := range fv.block.ClausesOf("aftercall") {
+		if !(cl.Target == calleeName || strings.HasSuffix(calleeName, "."+cl.Target) || strings.HasSuffix(calleeName, ")."+cl.Target)) {
+			continue
+		}
+		if env == nil {
+			env = fv.frameEnv(st, st.top())
+			for k, v := range fv.entryVars {
+				if _, ok := env.vars[k]; !ok {
+					env.vars[k] = v
+				}
+			}
+		}
+		ups = append(ups, upd{cl.Var, env.eval(cl.Expr).T})
+	}
+	for _, u := range ups {
+		st.globals["gl:"+u.name] = u.v
+	}
+}
+
 func (fv *FuncVer) bindResult(st *State, res ssa.Value, r Val) {
 	if res == nil {
 		return
@@ -70,6 +101,7 @@ func (fv *FuncVer) callValue(st *State, ins ssa.Instruction, callee Val, args []
 		if blk != nil {
 			r := fv.applyContract(st, ins, blk, fn.String(), fv.eng.shortFuncName(fn), fn.Signature, fn, args)
 			fv.bindResult(st, res, r)
+			fv.afterCall(st, fn.String())
 			f.ip++
 			return true
 		}
@@ -460,8 +492,25 @@ func (fv *FuncVer) applyContract(st *State, ins ssa.Instruction, blk *Block, ful
 	// bind parameters by name
 	names := paramNames(sig, fn, blk)
 	var ats []*Term
+	var boxes []boxedArg
+	isPure := blk.Has("pure") && blk.Flags["pure"] != "nondet"
 	for i, a := range args {
-		t := fv.argTerm(st, a)
+		var t *Term
+		if l, ok := a.(*Loc); ok && (len(l.Path) > 0 || l.Kind == rootCell || l.Kind == rootGlobal) {
+			if isPure {
+				// pure functions read the pointee, never the address
+				t = fv.ctx.Fresh("addr", SInt)
+				st.assume(Not(Eq(t, IntLit(0))))
+			} else {
+				// copy-in / copy-out through a temporary heap object (the callee must not retain the pointer)
+				t = fv.newRef(st)
+				tmp := &Loc{Kind: rootHeap, Ref: t, Typ: l.ElTyp, ElTyp: l.ElTyp}
+				fv.store(st, tmp, fv.load(st, l))
+				boxes = append(boxes, boxedArg{l, tmp})
+			}
+		} else {
+			t = fv.argTerm(st, a)
+		}
 		ats = append(ats, t)
 		if i < len(names) && names[i].name != "" && names[i].name != "_" {
 			env.vars[names[i].name] = SVal{T: t, Typ: names[i].typ}
@@ -492,8 +541,8 @@ func (fv *FuncVer) applyContract(st *State, ins ssa.Instruction, blk *Block, ful
 	if blk.Has("pure") && blk.Flags["pure"] != "nondet" {
 		// deterministic function of its arguments
 		var fargs []*Term
-		for i, a := range ats {
-			fargs = append(fargs, fv.pureArg(st, a, names, i)...)
+		for i := range ats {
+			fargs = append(fargs, fv.pureArgVal(st, args[i], ats[i], names, i)...)
 		}
 		switch rs.Len() {
 		case 0:
@@ -551,8 +600,33 @@ func (fv *FuncVer) applyContract(st *State, ins ssa.Instruction, blk *Block, ful
 	for _, cl := range blk.ClausesOf("ensures") {
 		st.assume(fv.evalBool(post, cl.Expr))
 	}
+	// copy-out of boxed interior pointers
+	for _, b := range boxes {
+		fv.store(st, b.orig, fv.load(st, b.tmp))
+	}
 	fv.recordEventT(st, short, ats, rts, ins)
 	return r
+}
+
+type boxedArg struct {
+	orig, tmp *Loc
+}
+
+// pureArgVal: the argument of a pure function. Pointers are read through (the
+// function depends on the pointee), slices are abstracted by their contents.
+func (fv *FuncVer) pureArgVal(st *State, a Val, t *Term, names []pname, i int) []*Term {
+	if i < len(names) && names[i].typ != nil {
+		if pt, ok := types.Unalias(names[i].typ).Underlying().(*types.Pointer); ok {
+			switch pt.Elem().Underlying().(type) {
+			case *types.Struct, *types.Array, *types.Basic:
+				l := fv.locOf(a, pt.Elem())
+				if v, ok := fv.load(st, l).(*Term); ok {
+					return []*Term{v}
+				}
+			}
+		}
+	}
+	return fv.pureArg(st, t, names, i)
 }
 
 func (fv *FuncVer) argTerm(st *State, a Val) *Term {
